@@ -26,16 +26,17 @@ def run(tier, seed, scale):
                        "tsan variant: no global stamps; it checks the happens-before edges between consecutive invocations of a serial filter, "
                        "between consecutive stages of one item and between the last body and the return"]
     q = tier == "quick"
+    tmo = 900 if q else 3000      # driver-side limit per process (generous: the box is shared); a hit is inconclusive, never a verdict
     phases = [
-        Phase("rel-hot", "c07", "rel", 60000 if q else 700000, procs=6 if q else 12, min_nontrivial=5000),
-        Phase("rel-2cpu", "c07", "rel", 10000 if q else 120000, procs=2 if q else 4, cpus=2),
-        Phase("rel-1cpu", "c07", "rel", 5000 if q else 60000, procs=2 if q else 4, cpus=1),
-        Phase("dbg-hot", "c07", "dbg", 20000 if q else 250000, procs=3 if q else 8),
-        Phase("tsan", "c07", "tsan", 9000 if q else 120000, procs=3 if q else 8, timeout=1500),
+        Phase("rel-hot", "c07", "rel", 48000 if q else 500000, procs=6 if q else 12, min_nontrivial=5000, timeout=tmo),
+        Phase("rel-2cpu", "c07", "rel", 8000 if q else 100000, procs=2 if q else 4, cpus=2, timeout=tmo),
+        Phase("rel-1cpu", "c07", "rel", 4000 if q else 50000, procs=2 if q else 4, cpus=1, timeout=tmo),
+        Phase("dbg-hot", "c07", "dbg", 15000 if q else 200000, procs=3 if q else 8, timeout=tmo),
+        Phase("tsan", "c07", "tsan", 7500 if q else 90000, procs=3 if q else 8, timeout=max(tmo, 1500)),
     ]
     if not q:
-        phases.append(Phase("asan", "c07", "asan", 80000, procs=6, timeout=1500))
-        phases.append(Phase("rel-16", "c07", "rel", 150000, procs=4, args=["--conc", "16", "--drivers", "1"]))
+        phases.append(Phase("asan", "c07", "asan", 60000, procs=6, timeout=tmo))
+        phases.append(Phase("rel-16", "c07", "rel", 100000, procs=4, args=["--conc", "16", "--drivers", "1"], timeout=tmo))
     run_phases(chk, phases, seed, scale)
     h, st = chk.hooks, chk.stats
 
